@@ -131,6 +131,10 @@ def spell_kinds(rng, kinds):
     """The documented ways of naming several kinds: separate parameters, one comma-separated
     parameter, or a mixture of both."""
     k = rng.random()
+    if rng.random() < 0.15:
+        # a stray comma (what the shell hands over for `--write table, graph`): an empty name names no kind
+        j = ','.join(kinds)
+        return rng.choice([[j + ','], [',' + j], [j.replace(',', ',,', 1) if ',' in j else j + ',']])
     if len(kinds) == 1 or k < 0.35:
         return list(kinds)
     if k < 0.65:
